@@ -3,7 +3,8 @@ import common as C
 
 RULE = ("pairs (start, end) of minutes of the day: a boundary grid (0,1,59,60,61,719,720,721,1379,1380,1438,1439 and neighbours) "
         "squared plus seeded random pairs (quick), all 1440 x 1440 pairs (thorough); plus unpadded spellings and a malformed "
-        "stream for the strptime model; non-trivial = distinct (start, end) with start != 0 or end != 0")
+        "stream for the strptime model; plus the same function on hosts in 11 zones on the days their clocks change (and other dates): "
+        "the result must not depend on zone or date; non-trivial = distinct (start, end) with start != 0 or end != 0")
 ASSUMPTIONS = ["datetime.strptime('%H:%M') and str(timedelta) are modelled (Model.parseHM, Model.strTimedelta) for ASCII text; "
                "validated by this correspondence (complete over canonical HH:MM pairs in the thorough tier)"]
 
@@ -39,7 +40,36 @@ TEXT = C.Kind("calc_duration_text", impl=_impl_text, model=lambda a: f"calcdur {
               classify=lambda a, o: "raise" if o.startswith("raise") else "accepted",
               nontrivial=lambda a, o: tuple(a))
 
-KINDS = {"calc_duration": PAIR, "calc_duration_text": TEXT}
+
+
+def _impl_zoned(a):
+    """the same function on a host in another zone, on another date: the result must not depend on either"""
+    import zoneharness as Z
+    return Z.under(a[0], a[1], lambda: _impl_pair((a[2], a[3])))
+
+
+ZONED = C.Kind("calc_duration_zoned", impl=_impl_zoned, model=lambda a: f"calcdur {C.ut(_fmt(a[2]))} {C.ut(_fmt(a[3]))}",
+               judge=lambda a, o: [(f"c14 {a[2]} {a[3]} {o[3:] if o.startswith('ok ') else 'u:-'}", "1")],
+               classify=lambda a, o: a[0], nontrivial=lambda a, o: (a[0], int(a[1] // 86400), a[2], a[3]),
+               shrink=lambda a: [(a[0], a[1], a[2] // 2, a[3]), (a[0], a[1], a[2], a[3] // 2)] if min(a[2], a[3]) > 0 else [])
+
+KINDS = {"calc_duration": PAIR, "calc_duration_text": TEXT, "calc_duration_zoned": ZONED}
+
+
+def _zoned_cases(rng, per_zone_instants, pairs_per_instant):
+    import zoneharness as Z
+    grid = [0, 1, 59, 60, 90, 119, 120, 150, 179, 180, 181, 239, 240, 1380, 1410, 1439]
+    out = []
+    for zone in Z.ZONES:
+        tr = Z.transitions_near(zone)
+        # the local days on which the zone changes its clocks come first (read at several hours of that day), then other dates
+        nows = [t + d for t in tr for d in (-7200, 0, 7200)][:per_zone_instants] or []
+        nows += Z.interesting_instants(rng, zone, max(2, per_zone_instants // 3))
+        for now in nows:
+            for _ in range(pairs_per_instant):
+                a, b = (rng.choice(grid), rng.choice(grid)) if rng.random() < 0.7 else (rng.randrange(1440), rng.randrange(1440))
+                out.append((zone, float(now), a, b))
+    return out
 
 
 def _texts(rng, n):
@@ -70,6 +100,8 @@ def streams(ctx):
         for lo in range(0, 1440, 60):
             ctx.run_cases(PAIR, "all-1440x1440-pairs", [(a, b) for a in range(lo, lo + 60) for b in range(1440)], exhaustive=True,
                           sample_every=40000)
+    zc = _zoned_cases(rng, ctx.n(9, 40), ctx.n(40, 200))
+    ctx.run_cases(ZONED, "zones-and-dates(DST days first)", zc, exhaustive=False, sample_every=max(1, len(zc) // 3))
     ctx.run_cases(TEXT, "spellings-and-malformed", _texts(rng, ctx.n(2000, 20000)), exhaustive=False, sample_every=500)
 
 
